@@ -600,7 +600,10 @@ pub fn laws(c: &MCmd, r: &RespValue, before: &Snapshot, after: &Snapshot, now: u
             let want = (now as i128 + p as i128 + 500) / 1000;
             if *r != RespValue::Integer(want as i64) { out.push(f("expiretime-rounding", format!("EXPIRETIME of a key with deadline {} ms replied {:?}; Redis: (deadline+500)/1000 = {}", now as i128 + p as i128, r, want))); } } }
         GetSet(k, _) => if kind.is_none() && pttl_after(k) != Some(-1) {
-            out.push(f("getset-keeps-ttl", format!("GETSET left a TTL on the key (PTTL {:?}); Redis discards it", pttl_after(k)))); }
+            // known finding (pinned by the repo's DST shadow model): class = GETSET of a string that has a TTL
+            let in_class = str_before(k).is_some() && pttl_before(k).map_or(false, |p| p >= 0) && pttl_after(k) == pttl_before(k);
+            out.push(Finding { class: "getset-keeps-ttl", what: format!("GETSET left a TTL on the key (PTTL {:?}); Redis discards it", pttl_after(k)),
+                               known: if in_class { Some("C01-getset-keeps-ttl") } else { None } }); }
         MSet(kvs) => for (k, _) in kvs { if pttl_after(k) != Some(-1) {
             out.push(f("mset-keeps-ttl", format!("MSET left a TTL on key {:?} (PTTL {:?}); Redis discards it", k, pttl_after(k)))); break; } }
         MSetNx(kvs) => if *r == RespValue::Integer(1) { for (k, _) in kvs { if pttl_after(k) != Some(-1) {
@@ -631,7 +634,12 @@ pub fn laws(c: &MCmd, r: &RespValue, before: &Snapshot, after: &Snapshot, now: u
         }
         GetRange(k, a, b) => if let Some(s) = str_before(k) {
             let want = redis_getrange(&s, *a, *b);
-            if *r != RespValue::BulkString(Some(want.clone())) { out.push(f("getrange", format!("GETRANGE {:?} {} {} replied {:?}; Redis: {:?}", String::from_utf8_lossy(&s), a, b, r, String::from_utf8_lossy(&want)))); } }
+            if *r != RespValue::BulkString(Some(want.clone())) {
+                // known finding (pinned by the repo's DST shadow model): class = non-empty string, both indices negative, start > end,
+                // and the reply is what the clamping rule yields without Redis's early exit (the first byte)
+                let in_class = !s.is_empty() && *a < 0 && *b < 0 && *a > *b && *r == RespValue::BulkString(Some(s[..1].to_vec()));
+                out.push(Finding { class: "getrange", what: format!("GETRANGE {:?} {} {} replied {:?}; Redis: {:?}", String::from_utf8_lossy(&s), a, b, r, String::from_utf8_lossy(&want)),
+                                   known: if in_class { Some("C01-getrange-negative-order") } else { None } }); } }
         SetRange(k, _, v) => if v.is_empty() && !nonstr_before(k) {
             let want = str_before(k).map_or(0, |s| s.len() as i64);
             if *r != RespValue::Integer(want) || before != after { out.push(f("setrange-empty-value", format!("SETRANGE with an empty value replied {:?} / changed the keyspace; Redis replies the current length {} and changes nothing", r, want))); } }
